@@ -11,10 +11,10 @@ CLAIMED = {
          "Trusts determinism of torch.Generator and SeedSequence; sampled histories.",
          TECH + "; history model (first answer per interval) with bit-equality"),
 }
-CLAIMED["C06"] = ("4 C06", "Seeded simulation of two replicas of one Brownian object: (A) same arguments and op stream under independent cache-fault plans, (B) dyadic mode under different histories then a common probe set, (C) different entropy, (D) fresh-process replica versus a replica built after a same-entropy decoy object, (T) two independent objects driven from two real threads under a seeded baton-passing scheduler (deterministic interleaving at line granularity) versus sequential replicas; all answers compared bit-for-bit.",
+CLAIMED["C06"] = ("4 C06", "Seeded simulation of two replicas of one Brownian object: (A) same arguments and op stream under independent cache-fault plans, (B) dyadic mode under different histories then a common probe set, (C) different entropy, (D) fresh-process replica versus a replica built after a same-entropy decoy object, (T) two independent objects driven from two real threads under a seeded baton-passing scheduler (deterministic interleaving at line granularity) versus sequential replicas; all answers compared bit-for-bit. (X) the replica once more in a fresh interpreter under another hash salt.",
          "Trusts determinism of torch.Generator and SeedSequence; entropy=None constructions are out of scope; sampled histories.",
          TECH + "; replica agreement (bit-equality) between independently faulted copies")
-CLAIMED["C07"] = ("4 C07", "Seeded simulation of long and adversarial query histories (random, solver-shaped sweeps forward/backward with ulp-long clipped last steps, real sdeint on default/Tree/Path Brownian motion) under a deterministic profile-hook monitor: no exception, Python call depth <= 150 per call, cache entries <= cache_size, call events per call within a budget proportional to the designed tree size (bounded liveness).",
+CLAIMED["C07"] = ("4 C07", "Seeded simulation of long and adversarial query histories (random, solver-shaped sweeps forward/backward with ulp-long clipped last steps, real sdeint on default/Tree/Path Brownian motion) under a deterministic profile-hook monitor: no exception, Python call depth <= 150 per call, cache entries <= cache_size, call events per call within a budget proportional to the designed tree size (bounded liveness). Also counted: floating-point tensors the object keeps alive outside its cache (retained-values walk).",
          "Depth/work measured in Python call events; histories whose designed dependency-tree size exceeds 8192 are truncated (cost proportional to that size is by design); sampled histories.",
          TECH + "; safety + bounded-liveness monitors (stack depth, cache bound, step budget) on every service call")
 CLAIMED["C04"] = ("4 C04", "Seeded simulation through the randomness seam: the object carries a label axis and every normal draw is answered with unit label vectors, so each returned value is its exact coefficient vector over independent N(0,1) sources; the Gram matrix of all answers of a faulted query history is compared with the exact covariance of Brownian-motion functionals (incl. bridge with supplied W/H, cross-element independence). Davie/Foster: the Levy draw is forced to 0 and to every basis tensor, recovering conditional mean and variance exactly. Exact oracle per run; coverage of histories is sampled.",
@@ -23,7 +23,7 @@ CLAIMED["C04"] = ("4 C04", "Seeded simulation through the randomness seam: the o
 CLAIMED["C12"] = ("4 C12", "Trace checking of the real stepping loop against an executable loop model over seeded output-time schedules (on-grid, inside a step, several per step, 1 ulp either side of a grid point, gaps smaller/larger than dt; tensor or list): identical Brownian request trace for every schedule and equal to the model recurrence, grid outputs bit-identical to grid states, interior outputs equal to the linear interpolant, common times bit-identical, shape/dtype. No fault dimension of its own (the real-Brownian share runs with cache faults); claimed because the recording seam, stub peer and loop model decide it, not because it needs fault injection.",
          "StubBrownian (stateless closed form) in ~80% of runs, real BrownianInterval in ~20%; interpolation to 1e-12 rel (f64)/1e-5 (f32); schedules sampled.",
          TECH + "; trace refinement against a reference model of the fixed-step loop over sampled output schedules")
-CLAIMED["C13"] = ("4 C13", "Seeded simulation of checkpoint/restart: one-shot integration vs 1-8 chunks cut at PRNG-chosen grid points carrying only the returned (state, extra state), with crashes injected at the k-th drift / diffusion / Brownian call of a chunk (possibly mid-step) followed by restart from the last checkpoint; bit-exact comparison of final state, extra state, shared outputs and the concatenated surviving request trace. All solvers and noise types; stub and real Brownian motion (cache faults on).",
+CLAIMED["C13"] = ("4 C13", "Seeded simulation of checkpoint/restart: one-shot integration vs 1-8 chunks cut at PRNG-chosen grid points carrying only the returned (state, extra state), with crashes injected at the k-th drift / diffusion / Brownian call of a chunk (possibly mid-step) followed by restart from the last checkpoint; bit-exact comparison of final state, extra state, shared outputs and the concatenated surviving request trace. All solvers and noise types; stub and real Brownian motion (cache faults on). Checkpoints optionally pass a serialisation round trip, attempts get fresh SDE objects, restart at every grid point, and real-Brownian runs optionally use a fresh same-entropy object per execution.",
          "Restart points on the step grid (property precondition); crash = exception from a peer; sampled cut/crash schedules.",
          TECH + "; crash/restart equivalence against a one-shot reference execution, bit-exact")
 CLAIMED["C14"] = ("4 C14", "Seeded simulation of the adaptive controller under real and adversarial (scripted) error signals: invariants on the recorded trial schedule (contiguity, bounds, end exactly at ts[-1], dt_min, accept/reject rule in its weakest reading, shrinking on reject), bounded liveness via an analytic trial bound enforced by a deterministic call-event budget, and an independent value/decision oracle that re-executes the schedule with public non-adaptive single-step calls (recomputed RMS error norm, two-half-step values, interpolated outputs). The clause 'tightening tolerances reduces the true error' is not decided.",
